@@ -30,6 +30,9 @@ LEVEL_NOTE = "Trusts NumPy's seeded global generator for reproducibility of a fa
 DESIGN_REF = "DESIGN.md section 3 (C04), section 4 (F3)"
 
 
+STEP_BUDGET = 400000
+
+
 def strategy(tier):
     @st.composite
     def case(draw):
@@ -63,7 +66,15 @@ def oracle(case, rec):
     which = "exact" if algo["exact"] else ("pre_tau" if algo["pre_tau"] else "tau")
     rec.label("algo:" + which, "nS:%d" % n_s, "nE:%d" % n_e)
     key = "C04/" + which
-    out = call(key, case, stoch.run_raw, model, t_end, case["iters"], algo["exact"], su["np_seed"])
+    box = stoch.limit_steps(model, STEP_BUDGET if algo["exact"] else 60000)
+    try:
+        out = call(key, case, stoch.run_raw, model, t_end, case["iters"], algo["exact"], su["np_seed"])
+    except stoch.StepBudget:
+        if algo["exact"]:
+            # deterministic, count-based: the horizon was sized for <= ~3000 expected events per path
+            raise PropertyViolation(key + "/does-not-return", "exact simulation took more than %d steps for a horizon "
+                                    "sized for about 3000 events: the simulation does not return" % STEP_BUDGET, case)
+        raise Inconclusive("tau-leap step budget")
     try:
         Xs, Cs, Ts = out
     except Exception:
